@@ -93,6 +93,9 @@ Definition opens (segs : list ident) : text := concat (map open_namespace segs).
 Lemma closes_S n : closes (S n) = close_brace ++ closes n.
 Proof. reflexivity. Qed.
 
+Lemma opens_cons x o : opens (x :: o) = open_namespace x ++ opens o.
+Proof. reflexivity. Qed.
+
 Lemma close_all_seg s rest :
   wordy s -> close_all (s ++ scope_op ++ rest) = option_map (app close_brace) (close_all rest).
 Proof.
@@ -239,19 +242,37 @@ Proof.
   reflexivity.
 Qed.
 
+Lemma emit_S fuel before after :
+  emit (S fuel) before after =
+    let (seg, rest) := find_colon after in
+    match rest with
+    | [] => Some (declare_class seg, rev before)
+    | _ :: [] => None
+    | c1 :: c2 :: rest' =>
+        match emit fuel (c2 :: c1 :: rev seg ++ before) rest' with
+        | Some (o, span) => Some (open_namespace seg ++ o, span)
+        | None => None
+        end
+    end.
+Proof. reflexivity. Qed.
+
 Lemma emit_ns O : forall c b fuel,
   valid_path O -> valid_ident c = true -> length O < fuel ->
   emit fuel b (ns_text O ++ c) = Some (opens O ++ declare_class c, rev b ++ ns_text O).
 Proof.
   induction O as [|o O IH]; intros c b fuel HO Hc Hf.
   - destruct fuel as [|fuel]; [simpl in Hf; lia|]. apply valid_ident_spec in Hc. destruct Hc as [_ Hc].
-    simpl. rewrite find_colon_last by assumption. rewrite app_nil_r. reflexivity.
+    rewrite emit_S. change (ns_text [] ++ c) with c. rewrite find_colon_last by assumption.
+    rewrite app_nil_r. reflexivity.
   - destruct fuel as [|fuel]; [simpl in Hf; lia|]. simpl in Hf.
     apply valid_path_cons in HO. destruct HO as [Ho HO]. apply valid_ident_spec in Ho. destruct Ho as [_ Ho].
-    rewrite ns_text_cons, scope_op_eq, <- !app_assoc. simpl.
-    rewrite find_colon_seg by assumption. rewrite IH by (auto; lia).
-    unfold opens. simpl. rewrite <- !app_assoc. f_equal. f_equal.
-    rewrite rev_app_distr, rev_involutive, <- !app_assoc. reflexivity.
+    rewrite ns_text_cons, <- !app_assoc.
+    change (scope_op ++ ns_text O ++ c) with (":"%char :: ":"%char :: ns_text O ++ c).
+    rewrite emit_S, find_colon_seg by assumption. cbv beta iota.
+    rewrite IH by (auto; lia).
+    rewrite opens_cons, <- (app_assoc (open_namespace o)). f_equal. f_equal.
+    change (":"%char :: ":"%char :: rev o ++ b) with ([":"%char; ":"%char] ++ rev o ++ b).
+    rewrite !rev_app_distr, rev_involutive, <- !app_assoc. reflexivity.
 Qed.
 
 (* what the writer produces, at the level of segments; P: the namespaces open before qs *)
@@ -356,8 +377,8 @@ Lemma lex_opens o rest ts :
 Proof.
   intros Ho H. induction o as [|x o IH]; [exact H|].
   apply valid_path_cons in Ho. destruct Ho as [Hx Ho]. specialize (IH Ho).
-  unfold opens in *. simpl concat. rewrite <- app_assoc.
-  rewrite (lex_open_namespace x _ _ Hx IH). simpl flat_map. rewrite <- app_assoc. reflexivity.
+  rewrite opens_cons, <- app_assoc.
+  rewrite (lex_open_namespace x _ _ Hx IH). reflexivity.
 Qed.
 
 Fixpoint tokens_all (P : list ident) (qs : list qname) : list token :=
@@ -368,6 +389,18 @@ Fixpoint tokens_all (P : list ident) (qs : list qname) : list token :=
       repeat RBrace k ++ flat_map ns_tokens o ++ class_tokens (snd q) ++ tokens_all (fst q) more
   end.
 
+Lemma tokens_all_cons P N c more :
+  tokens_all P ((N, c) :: more) =
+    let '(k, _, o) := common P N in
+    repeat RBrace k ++ flat_map ns_tokens o ++ class_tokens c ++ tokens_all N more.
+Proof. reflexivity. Qed.
+
+Lemma render_all_cons P N c more :
+  render_all P ((N, c) :: more) =
+    let '(k, _, o) := common P N in
+    closes k ++ opens o ++ declare_class c ++ render_all N more.
+Proof. reflexivity. Qed.
+
 Lemma lex_render qs : forall P,
   forallb valid_qname qs = true -> lex (render_all P qs) [] = Some (tokens_all P qs).
 Proof.
@@ -375,7 +408,7 @@ Proof.
   - simpl. rewrite <- (app_nil_r (closes _)), <- (app_nil_r (repeat _ _)). apply lex_closes. reflexivity.
   - simpl in Hqs. apply andb_true_iff in Hqs. destruct Hqs as [Hq Hqs].
     apply valid_qname_spec in Hq. simpl in Hq. destruct Hq as [HN Hc].
-    simpl. pose proof (common_spec P N) as Hcs.
+    rewrite render_all_cons, tokens_all_cons. pose proof (common_spec P N) as Hcs.
     destruct (common P N) as [[k kept] o]. destruct Hcs as (d & HPd & Hk & HNo).
     assert (Ho : valid_path o). { rewrite HNo in HN. apply valid_path_app in HN. tauto. }
     apply lex_closes, lex_opens; [assumption|]. apply lex_declare_class; [assumption|]. apply IH, Hqs.
@@ -397,16 +430,17 @@ Lemma parse_opens o : forall ts st acc,
   parse_tokens (flat_map ns_tokens o ++ ts) st acc = parse_tokens ts (rev o ++ st) acc.
 Proof.
   induction o as [|x o IH]; intros ts st acc; [reflexivity|].
-  simpl flat_map. rewrite <- app_assoc, parse_ns_tokens, IH. simpl. rewrite <- app_assoc. reflexivity.
+  change (flat_map ns_tokens (x :: o)) with (ns_tokens x ++ flat_map ns_tokens o).
+  rewrite <- app_assoc, parse_ns_tokens, IH. simpl. rewrite <- app_assoc. reflexivity.
 Qed.
 
 Lemma parse_render qs : forall P acc,
   parse_tokens (tokens_all P qs) (rev P) acc = Some (rev acc ++ qs).
 Proof.
   induction qs as [|[N c] qs IH]; intros P acc.
-  - simpl. rewrite <- (rev_length P), <- (app_nil_r (repeat _ _)), <- (app_nil_r (rev P)) at 2.
-    rewrite parse_closes. simpl. rewrite app_nil_r. reflexivity.
-  - simpl. pose proof (common_spec P N) as Hcs.
+  - pose proof (parse_closes (rev P) [] [] acc) as H. rewrite rev_length, !app_nil_r in H.
+    simpl tokens_all. rewrite H, app_nil_r. reflexivity.
+  - rewrite tokens_all_cons. pose proof (common_spec P N) as Hcs.
     destruct (common P N) as [[k kept] o]. destruct Hcs as (d & HPd & Hk & HNo).
     rewrite HPd, rev_app_distr, <- Hk, <- (rev_length d), parse_closes, parse_opens.
     rewrite parse_class_tokens. rewrite <- rev_app_distr, <- HNo, rev_involutive.
@@ -421,4 +455,573 @@ Proof.
   intros Hqs. exists (render_all [] qs). split.
   - apply (write_loop_render qs []); [reflexivity|assumption].
   - unfold parse. rewrite lex_render by assumption. apply (parse_render qs [] []).
+Qed.
+
+(* a text is the text of at most one valid qualified name *)
+Lemma qname_text_inj q1 q2 :
+  valid_qname q1 = true -> valid_qname q2 = true -> qname_text q1 = qname_text q2 -> q1 = q2.
+Proof.
+  destruct q1 as [N1 c1], q2 as [N2 c2]. unfold qname_text. simpl.
+  intros H1 H2. apply valid_qname_spec in H1, H2. simpl in H1, H2.
+  destruct H1 as [HN1 Hc1], H2 as [HN2 Hc2]. apply valid_ident_spec in Hc1, Hc2.
+  destruct Hc1 as [_ Hc1], Hc2 as [_ Hc2].
+  revert N2 HN2. induction N1 as [|n1 N1 IH]; intros [|n2 N2] HN2 He.
+  - simpl in He. congruence.
+  - exfalso. change (ns_text [] ++ c1) with c1 in He. rewrite ns_text_cons, scope_op_eq, <- !app_assoc in He.
+    apply valid_path_cons in HN2. destruct HN2 as [Hn2 _]. apply valid_ident_spec in Hn2. destruct Hn2 as [_ Hn2].
+    change ([":"%char; ":"%char] ++ ns_text N2 ++ c2) with (":"%char :: ":"%char :: ns_text N2 ++ c2) in He.
+    apply (f_equal find_colon) in He.
+    rewrite (find_colon_last c1), (find_colon_seg n2) in He by assumption. congruence.
+  - exfalso. change (ns_text [] ++ c2) with c2 in He. rewrite ns_text_cons, scope_op_eq, <- !app_assoc in He.
+    apply valid_path_cons in HN1. destruct HN1 as [Hn1 _]. apply valid_ident_spec in Hn1. destruct Hn1 as [_ Hn1].
+    change ([":"%char; ":"%char] ++ ns_text N1 ++ c1) with (":"%char :: ":"%char :: ns_text N1 ++ c1) in He.
+    apply (f_equal find_colon) in He.
+    rewrite (find_colon_last c2), (find_colon_seg n1) in He by assumption. congruence.
+  - rewrite !ns_text_cons, scope_op_eq, <- !app_assoc in He.
+    change ([":"%char; ":"%char] ++ ns_text N1 ++ c1) with (":"%char :: ":"%char :: ns_text N1 ++ c1) in He.
+    change ([":"%char; ":"%char] ++ ns_text N2 ++ c2) with (":"%char :: ":"%char :: ns_text N2 ++ c2) in He.
+    apply valid_path_cons in HN1, HN2. destruct HN1 as [Hn1 HN1], HN2 as [Hn2 HN2].
+    apply valid_ident_spec in Hn1, Hn2. destruct Hn1 as [_ Hn1], Hn2 as [_ Hn2].
+    pose proof (f_equal find_colon He) as Hf.
+    rewrite (find_colon_seg n1), (find_colon_seg n2) in Hf by assumption.
+    injection Hf as -> Hr. specialize (IH HN1 N2 HN2 Hr). congruence.
+Qed.
+
+(* ------------------------------------------------------------------------------------------------------------ *)
+(* scanner: one regex match                                                                                      *)
+
+(* the text after a name: not a word character, not a ':' *)
+Definition ends_name (k : text) : bool :=
+  match k with [] => true | c :: _ => negb (is_word c) && negb (is_colon c) end.
+
+(* a continuation after which nothing of what precedes is taken for a template name *)
+Definition delim (k : text) : bool := ends_name k && negb (followed_by_lt k).
+
+Lemma take_name_word w r :
+  wordy w -> take_name (w ++ r) = let (n, rest) := take_name r in (w ++ n, rest).
+Proof.
+  induction w as [|c w IH]; intros Hw.
+  - simpl. destruct (take_name r). reflexivity.
+  - apply wordy_cons in Hw. destruct Hw as [Hc Hw]. simpl. rewrite Hc, IH by assumption.
+    destruct (take_name r). reflexivity.
+Qed.
+
+Lemma take_name_end k : ends_name k = true -> take_name k = ([], k).
+Proof.
+  destruct k as [|c k]; [reflexivity|]. simpl. intros H. apply andb_true_iff in H. destruct H as [H1 H2].
+  apply negb_true_iff in H1, H2. rewrite H1, H2. reflexivity.
+Qed.
+
+Lemma take_name_scope d r :
+  is_word d = true ->
+  take_name (":"%char :: ":"%char :: d :: r) =
+    let (n, rest) := take_name (d :: r) in (":"%char :: ":"%char :: n, rest).
+Proof.
+  intros Hd. change (take_name (":"%char :: ":"%char :: d :: r))
+    with (if is_colon ":"%char && is_word d
+          then let (n, rest) := take_name (d :: r) in (":"%char :: ":"%char :: n, rest)
+          else ([], ":"%char :: ":"%char :: d :: r)).
+  rewrite Hd. reflexivity.
+Qed.
+
+Lemma qname_starts_with_word N c k :
+  valid_path N -> valid_ident c = true ->
+  exists d r, ns_text N ++ c ++ k = d :: r /\ is_word d = true.
+Proof.
+  intros HN Hc. destruct N as [|n N].
+  - apply valid_ident_spec in Hc. destruct Hc as [Hne Hw]. destruct c as [|d c]; [congruence|].
+    apply wordy_cons in Hw. exists d, (c ++ k). tauto.
+  - apply valid_path_cons in HN. destruct HN as [Hn _]. apply valid_ident_spec in Hn.
+    destruct Hn as [Hne Hw]. destruct n as [|d n]; [congruence|]. apply wordy_cons in Hw.
+    rewrite ns_text_cons. simpl. eexists _, _. split; [reflexivity|tauto].
+Qed.
+
+Lemma take_name_qname N : forall c k,
+  valid_path N -> valid_ident c = true -> ends_name k = true ->
+  take_name (ns_text N ++ c ++ k) = (ns_text N ++ c, k).
+Proof.
+  induction N as [|n N IH]; intros c k HN Hc Hk.
+  - apply valid_ident_spec in Hc. destruct Hc as [_ Hw]. simpl (ns_text []). simpl app at 1.
+    rewrite take_name_word, take_name_end by assumption. rewrite app_nil_r. reflexivity.
+  - apply valid_path_cons in HN. destruct HN as [Hn HN]. apply valid_ident_spec in Hn. destruct Hn as [_ Hn].
+    rewrite ns_text_cons, <- !app_assoc. rewrite take_name_word by assumption.
+    destruct (qname_starts_with_word N c k HN Hc) as (d & r & He & Hd).
+    rewrite scope_op_eq. change ([":"%char; ":"%char] ++ ns_text N ++ c ++ k)
+      with (":"%char :: ":"%char :: ns_text N ++ c ++ k).
+    rewrite He, take_name_scope, <- He, IH by assumption.
+    change ([":"%char; ":"%char] ++ ns_text N ++ c) with (":"%char :: ":"%char :: ns_text N ++ c).
+    reflexivity.
+Qed.
+
+Lemma next_match_skip c r : is_word c = false -> next_match (c :: r) = next_match r.
+Proof. intros H. simpl. rewrite H. reflexivity. Qed.
+
+Lemma next_match_word d r :
+  is_word d = true ->
+  next_match (d :: r) = let (n, rest) := take_name (d :: r) in Some (n, followed_by_lt rest, rest).
+Proof.
+  intros H. change (next_match (d :: r))
+    with (if is_word d then let (n, rest) := take_name (d :: r) in Some (n, followed_by_lt rest, rest)
+          else next_match r).
+  rewrite H. reflexivity.
+Qed.
+
+(* fuel *)
+Lemma take_name_length n : forall s, length s <= n -> length (snd (take_name s)) <= length s.
+Proof.
+  induction n as [|n IH]; intros s Hn.
+  - destruct s; [simpl; lia|simpl in Hn; lia].
+  - destruct s as [|c r]; [simpl; lia|]. simpl in Hn.
+    assert (Hr : length (snd (take_name r)) <= length r) by (apply IH; lia).
+    simpl. destruct (is_word c).
+    + destruct (take_name r). simpl in *. lia.
+    + destruct (is_colon c); [|simpl; lia]. destruct r as [|c2 [|d r2]]; try (simpl; lia).
+      destruct (is_colon c2 && is_word d); [|simpl; lia].
+      assert (Hr2 : length (snd (take_name (d :: r2))) <= length (d :: r2)) by (apply IH; simpl in *; lia).
+      destruct (take_name (d :: r2)). simpl in *. lia.
+Qed.
+
+Lemma next_match_length s : forall n g rest,
+  next_match s = Some (n, g, rest) -> length rest < length s.
+Proof.
+  induction s as [|c r IH]; intros n g rest H; [discriminate|].
+  destruct (is_word c) eqn:Hc.
+  - rewrite next_match_word in H by assumption.
+    pose proof (take_name_length (length (c :: r)) (c :: r) (le_n _)) as HL.
+    assert (Hcr : take_name (c :: r) = let (m, rest') := take_name r in (c :: m, rest')).
+    { simpl. rewrite Hc. reflexivity. }
+    pose proof (take_name_length (length r) r (le_n _)) as HLr.
+    rewrite Hcr in H. destruct (take_name r) as [m rest']. injection H as _ _ <-. simpl in *. lia.
+  - rewrite next_match_skip in H by assumption. apply IH in H. simpl. lia.
+Qed.
+
+Lemma scan_fuel_irrel f1 : forall f2 s,
+  length s < f1 -> length s < f2 -> scan_fuel f1 s = scan_fuel f2 s.
+Proof.
+  induction f1 as [|f1 IH]; intros f2 s H1 H2; [lia|].
+  destruct f2 as [|f2]; [lia|]. simpl.
+  destruct (next_match s) as [[[n g] rest]|] eqn:Hm; [|reflexivity].
+  apply next_match_length in Hm. f_equal. apply IH; lia.
+Qed.
+
+Lemma scan_unfold s :
+  scan s = match next_match s with
+           | None => []
+           | Some (name, group2, rest) => (if kept name group2 then [name] else []) ++ scan rest
+           end.
+Proof.
+  unfold scan at 1. simpl scan_fuel.
+  destruct (next_match s) as [[[n g] rest]|] eqn:Hm; [|reflexivity].
+  apply next_match_length in Hm. f_equal. unfold scan. apply scan_fuel_irrel; lia.
+Qed.
+
+Lemma scan_nil : scan [] = [].
+Proof. reflexivity. Qed.
+
+Lemma scan_skip c s : is_word c = false -> scan (c :: s) = scan s.
+Proof. intros H. rewrite (scan_unfold (c :: s)), (scan_unfold s), next_match_skip by assumption. reflexivity. Qed.
+
+(* one match: a qualified name followed by something that ends it *)
+Lemma scan_name N c k :
+  valid_path N -> valid_ident c = true -> ends_name k = true ->
+  scan (ns_text N ++ c ++ k) =
+    (if kept (ns_text N ++ c) (followed_by_lt k) then [ns_text N ++ c] else []) ++ scan k.
+Proof.
+  intros HN Hc Hk. rewrite scan_unfold.
+  destruct (qname_starts_with_word N c k HN Hc) as (d & r & He & Hd).
+  rewrite He, next_match_word, <- He, take_name_qname by assumption. reflexivity.
+Qed.
+
+(* ------------------------------------------------------------------------------------------------------------ *)
+(* scanner: the filters                                                                                          *)
+
+Lemma kept_template name : kept name true = false.
+Proof. reflexivity. Qed.
+
+Lemma kept_keyword name g : In name keyword_texts -> kept name g = false.
+Proof.
+  intros Hin. unfold kept. destruct g; [reflexivity|].
+  destruct (negb _); [reflexivity|].
+  replace (existsb (text_eqb name) keyword_texts) with true; [reflexivity|].
+  symmetry. apply existsb_exists. exists name. split; [assumption|].
+  destruct (text_eqb_spec name name); congruence.
+Qed.
+
+Lemma kept_prefixed name g pre :
+  In pre prefix_texts -> starts_with name pre = true -> kept name g = false.
+Proof.
+  intros Hin Hs. unfold kept. destruct g; [reflexivity|].
+  destruct (negb _); [reflexivity|]. destruct (existsb (text_eqb name) keyword_texts); [reflexivity|].
+  replace (existsb (starts_with name) prefix_texts) with true; [reflexivity|].
+  symmetry. apply existsb_exists. exists pre. auto.
+Qed.
+
+Lemma kept_not_alpha c name g : is_alpha c = false -> kept (c :: name) g = false.
+Proof. intros H. unfold kept. destruct g; [reflexivity|]. rewrite H. reflexivity. Qed.
+
+Lemma starts_with_has_prefix name : forall pre, starts_with name pre = true -> has_prefix pre name = true.
+Proof.
+  induction name as [|c name IH]; intros [|p pre] H; try discriminate.
+  simpl in *. destruct (Ascii.eqb_spec c p) as [->|]; [|discriminate].
+  rewrite Ascii.eqb_refl. simpl. destruct pre as [|p' pre]; [reflexivity|]. apply IH, H.
+Qed.
+
+Lemma kept_user_class q : user_class q = true -> kept (qname_text q) false = true.
+Proof.
+  unfold user_class. rewrite !andb_true_iff, !negb_true_iff. intros [[[_ Ha] Hk] Hp].
+  unfold kept. destruct (qname_text q) as [|c s] eqn:He; [discriminate|].
+  rewrite Ha, Hk. simpl negb.
+  destruct (existsb (starts_with (c :: s)) prefix_texts) eqn:Hs; [|reflexivity].
+  apply existsb_exists in Hs. destruct Hs as (pre & Hin & Hs). apply starts_with_has_prefix in Hs.
+  assert (Ht : existsb (fun p => has_prefix p (c :: s)) prefix_texts = true)
+    by (apply existsb_exists; eauto).
+  congruence.
+Qed.
+
+Lemma digit_not_alpha c : is_digit c = true -> is_alpha c = false.
+Proof.
+  destruct c as [[|] [|] [|] [|] [|] [|] [|] [|]]; vm_compute; intros H; first [reflexivity|discriminate].
+Qed.
+
+(* ------------------------------------------------------------------------------------------------------------ *)
+(* scanner: the keywords of the grammar                                                                          *)
+
+Definition keywords_cover : Prop := forall w, In w grammar_keywords -> In w keywords.
+
+Lemma all_funds_complete f : In f all_funds.
+Proof. destruct f; simpl; tauto. Qed.
+
+Lemma fund_word_in_grammar f w : In w (fund_words f) -> In w grammar_keywords.
+Proof.
+  intros H. unfold grammar_keywords. apply in_or_app. left. apply in_flat_map.
+  exists f. split; [apply all_funds_complete|assumption].
+Qed.
+
+Lemma grammar_keywords_valid w : In w grammar_keywords -> valid_ident (T w) = true.
+Proof.
+  assert (H : forallb (fun w => valid_ident (T w)) grammar_keywords = true) by (vm_compute; reflexivity).
+  rewrite forallb_forall in H. apply H.
+Qed.
+
+Lemma scan_keyword w k :
+  keywords_cover -> In w grammar_keywords -> ends_name k = true -> scan (T w ++ k) = scan k.
+Proof.
+  intros Hcov Hin Hk.
+  pose proof (scan_name [] (T w) k eq_refl (grammar_keywords_valid w Hin) Hk) as H.
+  simpl (ns_text [] ++ _) in H. rewrite H, kept_keyword; [reflexivity|].
+  apply in_map, Hcov, Hin.
+Qed.
+
+Lemma delim_ends k : delim k = true -> ends_name k = true.
+Proof. unfold delim. rewrite andb_true_iff. tauto. Qed.
+
+Lemma delim_no_lt k : delim k = true -> followed_by_lt k = false.
+Proof. unfold delim. rewrite andb_true_iff, negb_true_iff. tauto. Qed.
+
+Lemma sep_by_single sep x : sep_by sep [x] = x.
+Proof. simpl. apply app_nil_r. Qed.
+
+Lemma sep_by_cons2 sep x y r : sep_by sep (x :: y :: r) = x ++ sep ++ sep_by sep (y :: r).
+Proof. reflexivity. Qed.
+
+(* blank-separated keywords, as in `unsigned long` *)
+Lemma scan_keywords ws : forall k,
+  keywords_cover -> (forall w, In w ws -> In w grammar_keywords) -> ends_name k = true ->
+  scan (sep_by (T " ") (map T ws) ++ k) = scan k.
+Proof.
+  induction ws as [|w ws IH]; intros k Hcov Hin Hk; [reflexivity|].
+  destruct ws as [|w2 ws].
+  - change (map T [w]) with [T w]. rewrite sep_by_single. apply scan_keyword; auto. apply Hin. left. reflexivity.
+  - change (map T (w :: w2 :: ws)) with (T w :: T w2 :: map T ws). rewrite sep_by_cons2, <- !app_assoc.
+    rewrite scan_keyword; [|assumption|apply Hin; left; reflexivity|reflexivity].
+    change (T " " ++ sep_by (T " ") (T w2 :: map T ws) ++ k)
+      with (" "%char :: sep_by (T " ") (map T (w2 :: ws)) ++ k).
+    rewrite scan_skip by reflexivity. apply IH; auto. intros w' Hw'. apply Hin. right. exact Hw'.
+Qed.
+
+(* ------------------------------------------------------------------------------------------------------------ *)
+(* scanner: induction over the grammar of type descriptions                                                      *)
+
+Section TyInd.
+  Variable P : ty -> Prop.
+  Hypothesis Hfund : forall f, P (TFund f).
+  Hypothesis Hlit : forall d, P (TLit d).
+  Hypothesis Hname : forall o q, P (TName o q).
+  Hypothesis Happ : forall o q args, Forall P args -> P (TApp o q args).
+  Hypothesis Hptr : forall t, P t -> P (TPtr t).
+  Hypothesis Hlref : forall t, P t -> P (TLRef t).
+  Hypothesis Hrref : forall t, P t -> P (TRRef t).
+  Hypothesis Hconst : forall t, P t -> P (TConst t).
+  Hypothesis Hvolatile : forall t, P t -> P (TVolatile t).
+  Hypothesis Hfun : forall r ps, P r -> Forall P ps -> P (TFun r ps).
+  Hypothesis Hfunptr : forall r ps, P r -> Forall P ps -> P (TFunPtr r ps).
+
+  Fixpoint ty_ind' (t : ty) : P t :=
+    let all := fix all (l : list ty) : Forall P l :=
+                 match l with
+                 | [] => Forall_nil P
+                 | x :: r => Forall_cons x (ty_ind' x) (all r)
+                 end in
+    match t with
+    | TFund f => Hfund f
+    | TLit d => Hlit d
+    | TName o q => Hname o q
+    | TApp o q args => Happ o q args (all args)
+    | TPtr t => Hptr t (ty_ind' t)
+    | TLRef t => Hlref t (ty_ind' t)
+    | TRRef t => Hrref t (ty_ind' t)
+    | TConst t => Hconst t (ty_ind' t)
+    | TVolatile t => Hvolatile t (ty_ind' t)
+    | TFun r ps => Hfun r ps (ty_ind' r) (all ps)
+    | TFunPtr r ps => Hfunptr r ps (ty_ind' r) (all ps)
+    end.
+End TyInd.
+
+Lemma delim_punct c k :
+  is_word c = false -> is_colon c = false -> is_space c = false -> Ascii.eqb c "<"%char = false ->
+  delim (c :: k) = true.
+Proof. intros H1 H2 H3 H4. unfold delim. simpl. rewrite H1, H2, H3, H4. reflexivity. Qed.
+
+Lemma delim_blank c k :
+  is_space c = false -> Ascii.eqb c "<"%char = false -> delim (" "%char :: c :: k) = true.
+Proof. intros H3 H4. unfold delim. simpl. rewrite H3, H4. reflexivity. Qed.
+
+Definition prefixes_cover : Prop :=
+  In "std::"%string skipped_prefixes /\ In "yorel::"%string skipped_prefixes.
+
+Definition names_of (t : ty) : list text := map qname_text (class_names t).
+
+Definition sound (t : ty) : Prop :=
+  wf_ty t = true -> forall k, delim k = true -> scan (show t ++ k) = names_of t ++ scan k.
+
+Definition sound_list (l : list ty) : Prop :=
+  forallb wf_ty l = true -> forall k, delim k = true ->
+  scan (sep_by (T ", ") (map show l) ++ k) = map qname_text (flat_map class_names l) ++ scan k.
+
+Lemma sound_args l : Forall sound l -> sound_list l.
+Proof.
+  induction 1 as [|a l Ha Hl IH]; intros Hwf k Hk; [reflexivity|].
+  simpl in Hwf. apply andb_true_iff in Hwf. destruct Hwf as [Hwa Hwl].
+  change (flat_map class_names (a :: l)) with (class_names a ++ flat_map class_names l).
+  rewrite map_app, <- app_assoc. destruct l as [|b l].
+  - change (map show [a]) with [show a]. rewrite sep_by_single. simpl. rewrite (Ha Hwa k Hk).
+    unfold names_of. reflexivity.
+  - change (map show (a :: b :: l)) with (show a :: show b :: map show l).
+    rewrite sep_by_cons2, <- !app_assoc.
+    rewrite (Ha Hwa); [|apply delim_punct; reflexivity].
+    unfold names_of. f_equal.
+    change (T ", " ++ sep_by (T ", ") (show b :: map show l) ++ k)
+      with (","%char :: " "%char :: sep_by (T ", ") (map show (b :: l)) ++ k).
+    rewrite !scan_skip by reflexivity. apply IH; assumption.
+Qed.
+
+Lemma valid_name_in o q : valid_qname q = true -> valid_qname (name_in o q) = true.
+Proof.
+  intros H. apply valid_qname_spec in H. destruct H as [Hp Hc]. apply valid_qname_spec. simpl. split; [|assumption].
+  apply valid_path_app. split; [|assumption]. destruct o; reflexivity.
+Qed.
+
+(* a name that is not a user class, or is followed by `<`, is not kept *)
+Lemma kept_foreign o q g :
+  prefixes_cover -> o <> User -> kept (qname_text (name_in o q)) g = false.
+Proof.
+  intros [Hstd Hyorel] Ho. destruct o; [congruence| |].
+  - apply (kept_prefixed _ _ (T "std::")); [apply in_map, Hstd|].
+    unfold qname_text, name_in. simpl fst. simpl origin_prefix. simpl app at 2. rewrite ns_text_cons. reflexivity.
+  - apply (kept_prefixed _ _ (T "yorel::")); [apply in_map, Hyorel|].
+    unfold qname_text, name_in. simpl fst. simpl origin_prefix. simpl app at 2. rewrite ns_text_cons. reflexivity.
+Qed.
+
+Lemma scan_qname q k :
+  valid_qname q = true -> ends_name k = true ->
+  scan (qname_text q ++ k) = (if kept (qname_text q) (followed_by_lt k) then [qname_text q] else []) ++ scan k.
+Proof.
+  intros Hq Hk. apply valid_qname_spec in Hq. destruct Hq as [Hp Hc].
+  unfold qname_text. rewrite <- app_assoc. apply scan_name; assumption.
+Qed.
+
+Lemma user_class_valid q : user_class q = true -> valid_qname q = true.
+Proof. unfold user_class. rewrite !andb_true_iff. tauto. Qed.
+
+Theorem extract_sound : keywords_cover -> prefixes_cover -> forall t, sound t.
+Proof.
+  intros Hkw Hpre. induction t using ty_ind'; intros Hwf k Hk; pose proof (delim_ends k Hk) as Hend.
+  - (* fundamental type *)
+    change (show (TFund f)) with (sep_by (T " ") (map T (fund_words f))).
+    apply scan_keywords; auto. apply fund_word_in_grammar.
+  - (* literal *)
+    simpl in Hwf. apply andb_true_iff in Hwf. destruct Hwf as [Hv Hd].
+    pose proof (scan_name [] d k eq_refl Hv Hend) as H. simpl (ns_text [] ++ _) in H.
+    change (show (TLit d)) with d. rewrite H. destruct d as [|c d]; [discriminate|].
+    rewrite kept_not_alpha by (apply digit_not_alpha, Hd). reflexivity.
+  - (* name *)
+    change (show (TName o q)) with (qname_text (name_in o q)). destruct o.
+    + simpl in Hwf. change (name_in User q) with (fst q, snd q). rewrite <- surjective_pairing.
+      rewrite scan_qname by (auto using user_class_valid).
+      rewrite (delim_no_lt k Hk), kept_user_class by assumption. reflexivity.
+    + simpl in Hwf. rewrite scan_qname by (auto using valid_name_in).
+      rewrite kept_foreign by (auto; discriminate). reflexivity.
+    + simpl in Hwf. rewrite scan_qname by (auto using valid_name_in).
+      rewrite kept_foreign by (auto; discriminate). reflexivity.
+  - (* template application: the name is followed by `<` *)
+    simpl in Hwf. apply andb_true_iff in Hwf. destruct Hwf as [Hq Hargs].
+    change (show (TApp o q args))
+      with (qname_text (name_in o q) ++ T "<" ++ close_angle (sep_by (T ", ") (map show args))).
+    unfold close_angle. rewrite <- !app_assoc.
+    rewrite scan_qname by (auto using valid_name_in).
+    change (followed_by_lt (T "<" ++ _)) with true. rewrite kept_template.
+    change (T "<" ++ ?x) with ("<"%char :: x). simpl app at 1.
+    rewrite scan_skip by reflexivity.
+    apply sound_args in H. unfold names_of. simpl class_names.
+    destruct (Ascii.eqb _ _).
+    + rewrite (H Hargs); [|apply delim_blank; reflexivity]. f_equal.
+      simpl (_ ++ k). rewrite !scan_skip by reflexivity. reflexivity.
+    + rewrite (H Hargs); [|apply delim_punct; reflexivity]. f_equal.
+      simpl (_ ++ k). rewrite !scan_skip by reflexivity. reflexivity.
+  - (* pointer *)
+    simpl in Hwf. change (show (TPtr t)) with (show t ++ T "*"). rewrite <- app_assoc.
+    rewrite (IHt Hwf); [|apply delim_punct; reflexivity].
+    change (T "*" ++ k) with ("*"%char :: k). rewrite scan_skip by reflexivity. reflexivity.
+  - (* lvalue reference *)
+    simpl in Hwf. change (show (TLRef t)) with (show t ++ T "&"). rewrite <- app_assoc.
+    rewrite (IHt Hwf); [|apply delim_punct; reflexivity].
+    change (T "&" ++ k) with ("&"%char :: k). rewrite scan_skip by reflexivity. reflexivity.
+  - (* rvalue reference *)
+    simpl in Hwf. change (show (TRRef t)) with (show t ++ T "&&"). rewrite <- app_assoc.
+    rewrite (IHt Hwf); [|apply delim_punct; reflexivity].
+    change (T "&&" ++ k) with ("&"%char :: "&"%char :: k). rewrite !scan_skip by reflexivity. reflexivity.
+  - (* const *)
+    simpl in Hwf. change (show (TConst t)) with (show t ++ T " const"). rewrite <- app_assoc.
+    rewrite (IHt Hwf); [|apply delim_blank; reflexivity].
+    change (T " const" ++ k) with (" "%char :: T "const" ++ k). rewrite scan_skip by reflexivity.
+    rewrite scan_keyword; auto. unfold grammar_keywords. apply in_or_app. right. simpl. tauto.
+  - (* volatile *)
+    simpl in Hwf. change (show (TVolatile t)) with (show t ++ T " volatile"). rewrite <- app_assoc.
+    rewrite (IHt Hwf); [|apply delim_blank; reflexivity].
+    change (T " volatile" ++ k) with (" "%char :: T "volatile" ++ k). rewrite scan_skip by reflexivity.
+    rewrite scan_keyword; auto. unfold grammar_keywords. apply in_or_app. right. simpl. tauto.
+  - (* function type *)
+    simpl in Hwf. apply andb_true_iff in Hwf. destruct Hwf as [Hr Hps].
+    change (show (TFun t ps)) with (show t ++ T " (" ++ sep_by (T ", ") (map show ps) ++ T ")").
+    rewrite <- !app_assoc. rewrite (IHt Hr); [|apply delim_blank; reflexivity].
+    change (T " (" ++ ?x) with (" "%char :: "("%char :: x). rewrite !scan_skip by reflexivity.
+    apply sound_args in H. rewrite (H Hps); [|apply delim_punct; reflexivity].
+    change (T ")" ++ k) with (")"%char :: k). rewrite scan_skip by reflexivity.
+    unfold names_of. simpl class_names. rewrite map_app, <- app_assoc. reflexivity.
+  - (* pointer to function *)
+    simpl in Hwf. apply andb_true_iff in Hwf. destruct Hwf as [Hr Hps].
+    change (show (TFunPtr t ps))
+      with (show t ++ T " (" ++ T "*)(" ++ sep_by (T ", ") (map show ps) ++ T ")").
+    rewrite <- !app_assoc. rewrite (IHt Hr); [|apply delim_blank; reflexivity].
+    change (T " (" ++ T "*)(" ++ ?x) with (" "%char :: "("%char :: "*"%char :: ")"%char :: "("%char :: x).
+    rewrite !scan_skip by reflexivity.
+    apply sound_args in H. rewrite (H Hps); [|apply delim_punct; reflexivity].
+    change (T ")" ++ k) with (")"%char :: k). rewrite scan_skip by reflexivity.
+    unfold names_of. simpl class_names. rewrite map_app, <- app_assoc. reflexivity.
+Qed.
+
+(* C19, extraction *)
+Theorem extract_correct :
+  keywords_cover -> prefixes_cover ->
+  forall t, wf_ty t = true -> scan (show t) = map qname_text (class_names t).
+Proof.
+  intros Hkw Hpre t Hwf. pose proof (extract_sound Hkw Hpre t Hwf [] eq_refl) as H.
+  rewrite app_nil_r, scan_nil, app_nil_r in H. exact H.
+Qed.
+
+(* ------------------------------------------------------------------------------------------------------------ *)
+(* scanner to writer: whatever text is scanned, every name kept is the text of a valid qualified name            *)
+
+Definition name_tail (x : text) : Prop :=
+  x = [] \/ exists q, valid_qname q = true /\ x = scope_op ++ qname_text q.
+
+Lemma shape_to_qname w x :
+  wordy w -> w <> [] -> name_tail x -> exists q, valid_qname q = true /\ w ++ x = qname_text q.
+Proof.
+  intros Hw Hne [->|([N c] & Hq & ->)].
+  - exists ([], w). split; [|rewrite app_nil_r; reflexivity].
+    apply valid_qname_spec. simpl. split; [reflexivity|]. apply valid_ident_spec. auto.
+  - exists (w :: N, c). apply valid_qname_spec in Hq. simpl in Hq. destruct Hq as [HN Hc]. split.
+    + apply valid_qname_spec. simpl. split; [|assumption]. apply valid_path_cons. split; [|assumption].
+      apply valid_ident_spec. auto.
+    + unfold qname_text. simpl fst. simpl snd. rewrite ns_text_cons, <- !app_assoc. reflexivity.
+Qed.
+
+Lemma take_name_shape n : forall s, length s <= n ->
+  exists w x, fst (take_name s) = w ++ x /\ wordy w /\ name_tail x /\
+              (forall d r, s = d :: r -> is_word d = true -> w <> []).
+Proof.
+  induction n as [|n IH]; intros s Hn.
+  - destruct s; [|simpl in Hn; lia]. exists [], []. repeat split; try (left; reflexivity). intros; discriminate.
+  - destruct s as [|c r].
+    { exists [], []. repeat split; try (left; reflexivity). intros; discriminate. }
+    simpl in Hn. destruct (is_word c) eqn:Hc.
+    + destruct (IH r ltac:(lia)) as (w & x & He & Hw & Hx & _).
+      assert (Hcr : take_name (c :: r) = let (m, rest') := take_name r in (c :: m, rest')).
+      { simpl. rewrite Hc. reflexivity. }
+      rewrite Hcr. destruct (take_name r) as [m rest']. simpl in He. subst m.
+      exists (c :: w), x. repeat split; auto.
+      * apply wordy_cons. auto.
+      * intros; discriminate.
+    + assert (Hdefault : fst (take_name (c :: r)) = [] ->
+                         exists w x, fst (take_name (c :: r)) = w ++ x /\ wordy w /\ name_tail x /\
+                           (forall d r0, c :: r = d :: r0 -> is_word d = true -> w <> [])).
+      { intros He. exists [], []. repeat split; try (left; reflexivity); auto.
+        intros d r0 Heq Hd. injection Heq as <- _. congruence. }
+      destruct (is_colon c) eqn:Hcol; [|apply Hdefault; simpl; rewrite Hc, Hcol; reflexivity].
+      destruct r as [|c2 [|d r2]]; try (apply Hdefault; simpl; rewrite Hc, Hcol; reflexivity).
+      destruct (is_colon c2 && is_word d) eqn:Hcd;
+        [|apply Hdefault; simpl; rewrite Hc, Hcol, Hcd; reflexivity].
+      apply andb_true_iff in Hcd. destruct Hcd as [Hc2 Hd].
+      apply is_colon_true in Hcol, Hc2. subst c c2.
+      rewrite take_name_scope by assumption.
+      destruct (IH (d :: r2) ltac:(simpl in *; lia)) as (w & x & He & Hw & Hx & Hne).
+      destruct (take_name (d :: r2)) as [m rest']. simpl in He. subst m.
+      specialize (Hne d r2 eq_refl Hd).
+      destruct (shape_to_qname w x Hw Hne Hx) as (q & Hq & Heq).
+      exists [], (scope_op ++ qname_text q). repeat split.
+      * simpl. rewrite Heq. reflexivity.
+      * right. eauto.
+      * intros d0 r0 Heq0 Hd0. injection Heq0 as <- _. vm_compute in Hd0. discriminate.
+Qed.
+
+Lemma next_match_valid s : forall n g rest,
+  next_match s = Some (n, g, rest) -> exists q, valid_qname q = true /\ n = qname_text q.
+Proof.
+  induction s as [|c r IH]; intros n g rest H; [discriminate|].
+  destruct (is_word c) eqn:Hc.
+  - rewrite next_match_word in H by assumption.
+    destruct (take_name_shape _ (c :: r) (le_n _)) as (w & x & He & Hw & Hx & Hne).
+    destruct (take_name (c :: r)) as [m rest']. injection H as <- _ _. simpl in He. subst m.
+    destruct (shape_to_qname w x Hw (Hne c r eq_refl Hc) Hx) as (q & Hq & Heq). eauto.
+  - rewrite next_match_skip in H by assumption. eapply IH, H.
+Qed.
+
+Lemma scan_fuel_valid f : forall s n,
+  In n (scan_fuel f s) -> exists q, valid_qname q = true /\ n = qname_text q.
+Proof.
+  induction f as [|f IH]; intros s n Hin; [contradiction|].
+  simpl in Hin. destruct (next_match s) as [[[m g] rest]|] eqn:Hm; [|contradiction].
+  apply in_app_or in Hin. destruct Hin as [Hin|Hin]; [|eapply IH, Hin].
+  destruct (kept m g); [|contradiction]. destruct Hin as [<-|[]]. eapply next_match_valid, Hm.
+Qed.
+
+Theorem scan_valid s n : In n (scan s) -> exists q, valid_qname q = true /\ n = qname_text q.
+Proof. apply scan_fuel_valid. Qed.
+
+(* any list of names drawn from what was scanned (the real std::set: sorted, without duplicates) is written well *)
+Theorem scan_then_write s names :
+  (forall n, In n names -> In n (scan s)) ->
+  exists qs out, names = map qname_text qs /\ forallb valid_qname qs = true /\
+                 write_forward_declarations names = Some out /\ parse out = Some qs.
+Proof.
+  intros Hsub.
+  assert (Hqs : exists qs, names = map qname_text qs /\ forallb valid_qname qs = true).
+  { induction names as [|n names IH].
+    - exists []. auto.
+    - destruct IH as (qs & -> & Hv); [intros m Hm; apply Hsub; right; exact Hm|].
+      destruct (scan_valid s n (Hsub n (or_introl eq_refl))) as (q & Hq & ->).
+      exists (q :: qs). simpl. rewrite Hq, Hv. auto. }
+  destruct Hqs as (qs & -> & Hv). destruct (writer_correct qs Hv) as (out & Hw & Hp).
+  exists qs, out. auto.
 Qed.
